@@ -161,6 +161,7 @@ type runCase struct {
 	Final   []obsMetric `json:"final"`
 	Accept  bool        `json:"accepted"`
 	CompErr string      `json:"compile_error,omitempty"`
+	Caps    []capObs    `json:"capture_groups,omitempty"`
 }
 
 type realRun struct {
@@ -240,6 +241,29 @@ func doProgram(out *vlib.Out, p *gen.Program, lines []string, st *stats, seed ui
 		refOut = append(refOut, core.RefLine(refStore, lib, l))
 		refSnaps = append(refSnaps, refObs(core, refStore))
 	}
+	// the reference's typing is sound on what the real regexp engine captured:
+	// every text a group typed Int / Float took on these lines has the shape
+	specOf := map[int][]gen.CapSpec{}
+	for _, k := range sortedKeys(lib.Log.ReMatch) {
+		q := lib.Log.ReMatch[k]
+		if q.Res == nil {
+			continue
+		}
+		sp, ok := specOf[q.Pid]
+		if !ok {
+			sp, _, _, _ = gen.SpecCapTypes(core.Regexps[q.Pid])
+			specOf[q.Pid] = sp
+		}
+		for i := 1; i < len(q.Res) && i-1 < len(sp); i++ {
+			// a group that did not take part in the match reports "" (no number is empty)
+			if q.Res[i] == "" {
+				continue
+			}
+			if bad := sp[i-1].ShapeViolation(q.Res[i]); bad != "" {
+				out.Violate("c01/capref-spec/unsound", fmt.Sprintf("pattern /%s/ group %d captured %q: %s", core.Regexps[q.Pid], i, q.Res[i], bad), rc)
+			}
+		}
+	}
 	obj, cerr := compileReal(src)
 	if cerr != nil {
 		// tie (4): every generated well-typed program is accepted
@@ -256,6 +280,13 @@ func doProgram(out *vlib.Out, p *gen.Program, lines []string, st *stats, seed ui
 	rr := runReal(obj, lines)
 	rc.Errs = rr.errs
 	rc.Final = rr.snaps[len(rr.snaps)-1]
+	// the type of every capture group: real checker vs the reference's decision
+	capTerms := "[]"
+	if impl, err := checkerCapTypes(src); err != nil {
+		out.Violate(className(flag, "rejected"), "the checker alone rejects a program the compiler accepted: "+firstLine(err.Error()), rc)
+	} else {
+		capTerms, rc.Caps, _ = judgeCaps(out, p.PatternTexts(), impl, rc, flag)
+	}
 	// oracle: line by line
 	for i := range lines {
 		st.lines++
@@ -313,11 +344,16 @@ func doProgram(out *vlib.Out, p *gen.Program, lines []string, st *stats, seed ui
 		// ONE case per program: the surface tree (decorators not inlined); the Coq
 		// side inlines it (Lang/Expand.v) and runs both ties on the result
 		out.Add(vlib.App("CSurf", vlib.N(id), p.SurfaceCoq(), gen.CoqBytes(fileName), vlib.List(ls), tablesCoq(lib.Log),
-			vlib.List(errs), obsCoq(rc.Final), objCoq(obj)), rc, nontriv)
+			vlib.List(errs), obsCoq(rc.Final), objCoq(obj), capTerms), rc, nontriv)
 	} else {
 		// a flagged stream exercises a construct on which the implementation is
-		// known to leave the reference: judged by the oracle above only
-		out.Add(vlib.App("CAccept", vlib.N(id), vlib.Bool(true)), rc, nontriv)
+		// known to leave the reference: judged by the oracle above only; the
+		// faithful model of the capture typing is still compared with the checker
+		if capTerms != "[]" {
+			out.Add(vlib.App("CCapTy", vlib.N(id), capTerms), rc, nontriv)
+		} else {
+			out.Add(vlib.App("CAccept", vlib.N(id), vlib.Bool(true)), rc, nontriv)
+		}
 	}
 	if flag == "" {
 		out.Count("stream/main")
@@ -466,11 +502,15 @@ func main() {
 		replay(a.Replay)
 		return
 	}
+	if e := gen.SelfTestCapType(); e != "" {
+		fmt.Fprintln(os.Stderr, "c01:", e)
+		os.Exit(3)
+	}
 	out := vlib.NewOut(a, "From V Require Import Corr.Run_C01.", "c01case", 45)
 	rng := vlib.NewRand(a.Seed)
-	nmain, nlines, nflag := 300, 6, 4
+	nmain, nlines, nflag, nprobe := 300, 6, 4, 600
 	if a.Thorough() {
-		nmain, nlines, nflag = 3000, 8, 40
+		nmain, nlines, nflag, nprobe = 3000, 8, 40, 6000
 	}
 	st := &stats{}
 	for i := 0; i < nmain; i++ {
@@ -485,12 +525,15 @@ func main() {
 			doProgram(out, p, lines, st, seed, 3)
 		}
 	}
+	// typing probes: the curated groups, the hand-annotated table and draws from
+	// the random grammar, 60 patterns per program
+	doProbes(out, gen.ProbeGroups(vlib.NewRand(rng.Uint64()), nprobe), 60)
 	out.Extra["programs_accepted"] = st.accepted
 	out.Extra["programs_rejected"] = st.rejected
 	out.Extra["lines_run"] = st.lines
 	out.Extra["lines_with_runtime_error_in_reference"] = st.errLines
 	out.Extra["programs_changing_the_store"] = st.changed
-	out.Flush("a run case is non-trivial if the final store differs from the freshly loaded one (some line matched and wrote a metric); a codegen case if the program has at least one conditional", false)
+	out.Flush("a run case is non-trivial if the final store differs from the freshly loaded one (some line matched and wrote a metric); a capture-typing probe if at least one group was judged", false)
 }
 
 // regen rebuilds program and lines from a recorded generator seed.
@@ -498,6 +541,8 @@ func regen(seed uint64, flag string, nlines int) (*gen.Program, []string) {
 	r := vlib.NewRand(seed)
 	cfg := gen.DefaultConfig()
 	cfg.Flag = flag
+	cfg.RichGroups = true
+	cfg.BigPow = true
 	p := gen.Generate(r, cfg)
 	return p, p.Lines(r, nlines)
 }
